@@ -126,6 +126,23 @@ macro_rules! cam16_rt {
         });
     };
 }
+
+program!(lat_cam16_xyz_box, "C16", "quick", l,
+    "Cam16::{from_xyz, into_xyz}, Cam16Jmh / Cam16Qsh ::{from_xyz, into_xyz} -> cam16::math::{xyz_to_cam16 (Adapt::run incl. negative cone responses), cam16_to_xyz (Unadapt::run)} [cam16/math.rs]",
+    "average surround: for every XYZ colour of the white-point box with Y >= 0.02 - including colours outside the spectral locus, whose CAT16 cone responses are negative - whenever the forward model is defined (finite lightness: positive achromatic response) XYZ -> CAM16 -> XYZ returns the original colour within 1e-6 (full colour, Jmh, Qsh)",
+{
+    let (x, y, z) = (T::var("x", 0.0, 0.95047), T::var("y", 0.02, 1.0), T::var("z", 0.0, 1.08883));
+    let c: Xyz<D65, T> = Xyz::new(x, y, z);
+    let p: Parameters<StaticWp<D65>, T> = Parameters::default_static_wp(T::k(40.0));
+    let baked = p.bake();
+    let tol = T::k(1e-6);
+    let full: Cam16<T> = Cam16::from_xyz(c, baked);
+    let defined = conj::<T>(&[finite(full.lightness), finite(full.chroma), T::p_lt(&T::k(0.0), &full.lightness)]);
+    let close = |b: Xyz<D65, T>| T::p_or(T::p_not(defined.clone()), conj::<T>(&[abs_le(b.x, x, tol), abs_le(b.y, y, tol), abs_le(b.z, z, tol)]));
+    T::ensure("full.round_trip_where_defined", close(full.into_xyz(baked)));
+    T::ensure("jmh.round_trip_where_defined", close(Cam16Jmh::from_xyz(c, baked).into_xyz(baked)));
+    T::ensure("qsh.round_trip_where_defined", close(Cam16Qsh::from_xyz(c, baked).into_xyz(baked)));
+});
 cam16_rt!(lat_cam16_average, Surround::Average, "average surround");
 cam16_rt!(lat_cam16_dim, Surround::Dim, "dim surround");
 cam16_rt!(lat_cam16_dark, Surround::Dark, "dark surround");
@@ -160,5 +177,5 @@ cam16_forward!(lat_cam16_forward_dark, Surround::Dark, (0.525, 0.8, 0.8), "dark 
 
 pub fn all() -> Vec<crate::Prog> {
     vec![lat_ok_cylinders_from_oklab::prog(), lat_ok_cylinders_to_oklab::prog(), lat_ok_from_rgb::prog(), lat_hsluv::prog(),
-         lat_cam16_average::prog(), lat_cam16_dim::prog(), lat_cam16_dark::prog(), lat_cam16_forward_average::prog(), lat_cam16_forward_dim::prog(), lat_cam16_forward_dark::prog()]
+         lat_cam16_average::prog(), lat_cam16_xyz_box::prog(), lat_cam16_dim::prog(), lat_cam16_dark::prog(), lat_cam16_forward_average::prog(), lat_cam16_forward_dim::prog(), lat_cam16_forward_dark::prog()]
 }
